@@ -135,6 +135,12 @@ def bitLen (v : Nat) : Nat := if v = 0 then 0 else v.log2 + 1
 
 def nbBitsOf (w : Nat) (bounds : List Nat) : Nat := bitLen (boundValue w bounds)
 
+/-- `biguint_gadget.rs: constrain_as_public_input` — the guard evaluated before anything is
+exposed: `if nb_bits != assigned.nb_bits() { return Err(Error::Synthesis(..)) }`. `true` = the
+exposure goes ahead. -/
+def bigExposeGuard (w : Nat) (bounds : List Nat) (nbBits : Nat) : Bool :=
+  !(nbBits != nbBitsOf w bounds)
+
 /-- `biguint_gadget.rs: constrain_as_public_input` exposes the limbs of `normalize(x)`:
 `x` itself when every bound is `≤ LOG2_BASE`, else `nb_bits.div_ceil(LOG2_BASE)` fresh limbs. -/
 def exposedLimbCount (w : Nat) (bounds : List Nat) : Nat :=
